@@ -474,4 +474,110 @@ theorem mkQName_plain_name (s : Str) (h1 : '}' ∉ s) (h2 : s.head? ≠ some '{'
   unfold mkQName
   rw [lstripBrace_of_head s h2, splitBrace_none s h1]
 
+/-! ### `QName(str)` exactly: every leading `{` goes, the first `}` of what is left separates -/
+
+theorem lstripBrace_cons_open (cs : Str) : lstripBrace ('{' :: cs) = lstripBrace cs := by
+  rw [lstripBrace]
+
+theorem lstripBrace_cons_other (c : Char) (cs : Str) (h : c ≠ '{') : lstripBrace (c :: cs) = c :: cs := by
+  unfold lstripBrace
+  split
+  · rename_i heq; simp only [List.cons.injEq] at heq; exact absurd heq.1 h
+  · rfl
+
+theorem lstripBrace_append_sep (uri loc : Str) :
+    lstripBrace (uri ++ '}' :: loc) = lstripBrace uri ++ '}' :: loc := by
+  induction uri with
+  | nil => exact lstripBrace_cons_other '}' loc (by decide)
+  | cons c cs ih =>
+    by_cases hc : c = '{'
+    · subst hc
+      simp only [List.cons_append, lstripBrace_cons_open]
+      exact ih
+    · simp only [List.cons_append, lstripBrace_cons_other c _ hc]
+
+theorem lstripBrace_subset (s : Str) (x : Char) (h : x ∈ lstripBrace s) : x ∈ s := by
+  induction s with
+  | nil => simp [lstripBrace] at h
+  | cons c cs ih =>
+    by_cases hc : c = '{'
+    · subst hc
+      rw [lstripBrace_cons_open] at h
+      exact List.mem_cons_of_mem _ (ih h)
+    · rw [lstripBrace_cons_other c cs hc] at h; exact h
+
+theorem lstripBrace_length_le (s : Str) : (lstripBrace s).length ≤ s.length := by
+  induction s with
+  | nil => simp [lstripBrace]
+  | cons c cs ih =>
+    by_cases hc : c = '{'
+    · subst hc
+      rw [lstripBrace_cons_open]
+      simp only [List.length_cons]
+      omega
+    · rw [lstripBrace_cons_other c cs hc]; exact Nat.le_refl _
+
+/-- `lstrip('{')` leaves a string alone exactly when it does not begin with `{` -/
+theorem lstripBrace_eq_self_iff (s : Str) : lstripBrace s = s ↔ s.head? ≠ some '{' := by
+  constructor
+  · intro h
+    cases s with
+    | nil => simp
+    | cons c cs =>
+      intro hh
+      simp only [List.head?_cons, Option.some.injEq] at hh
+      subst hh
+      rw [lstripBrace_cons_open] at h
+      have := lstripBrace_length_le cs
+      rw [h] at this
+      simp only [List.length_cons] at this
+      omega
+  · exact lstripBrace_of_head s
+
+/-- what the stripped text does not begin with -/
+theorem lstripBrace_head (s : Str) : (lstripBrace s).head? ≠ some '{' := by
+  induction s with
+  | nil => simp [lstripBrace]
+  | cons c cs ih =>
+    by_cases hc : c = '{'
+    · subst hc; rw [lstripBrace_cons_open]; exact ih
+    · rw [lstripBrace_cons_other c cs hc]
+      simp only [List.head?_cons, ne_eq, Option.some.injEq]
+      exact hc
+
+/-- **`QName('uri}local')`, exactly** — for every URI without the separator (Expat refuses the others) and
+    every local part (it may contain `}`: only the first one separates): the namespace is the URI without
+    its leading `{`s -/
+theorem mkQName_expat_name_exact (uri loc : Str) (h1 : '}' ∉ uri) :
+    mkQName (uri ++ '}' :: loc) = ⟨lstripBrace uri, loc⟩ := by
+  unfold mkQName
+  rw [lstripBrace_append_sep, splitBrace_append (lstripBrace uri) loc (fun h => h1 (lstripBrace_subset uri _ h))]
+
+/-- a name without separator, exactly: the local name is the name without its leading `{`s -/
+theorem mkQName_plain_name_exact (s : Str) (h1 : '}' ∉ s) : mkQName s = ⟨[], lstripBrace s⟩ := by
+  unfold mkQName
+  rw [splitBrace_none (lstripBrace s) (fun h => h1 (lstripBrace_subset s _ h))]
+
+/-- `splitBrace` is `str.partition('}')` when the separator occurs -/
+theorem splitBrace_some (s a b : Str) (h : splitBrace s = some (a, b)) : s = a ++ '}' :: b ∧ '}' ∉ a := by
+  induction s generalizing a b with
+  | nil => simp [splitBrace] at h
+  | cons c cs ih =>
+    by_cases hc : c = '}'
+    · subst hc
+      simp only [splitBrace, ↓reduceIte, Option.some.injEq, Prod.mk.injEq] at h
+      obtain ⟨rfl, rfl⟩ := h
+      simp
+    · simp only [splitBrace, hc, ↓reduceIte] at h
+      cases hs : splitBrace cs with
+      | none => simp [hs] at h
+      | some p =>
+        obtain ⟨a', b'⟩ := p
+        simp only [hs, Option.some.injEq, Prod.mk.injEq] at h
+        obtain ⟨rfl, rfl⟩ := h
+        obtain ⟨h1, h2⟩ := ih a' b' hs
+        refine ⟨by rw [h1]; rfl, ?_⟩
+        simp only [List.mem_cons, not_or]
+        exact ⟨fun e => hc e.symm, h2⟩
+
 end Genshi.Parse
